@@ -362,7 +362,10 @@ func c31newLedger(tx *transactions.SignedTxn) c31ledger {
 	app := makeApp(1, 1, 2, 2)
 	led.NewApp(tx.Txn.Sender, 888, app)
 	// foreign app 1056 (same creator: a "family" member that allows foreign box access)
-	led.NewApp(tx.Txn.Sender, 1056, makeApp(0, 0, 1, 1))
+	foreign := makeApp(0, 0, 1, 1)
+	foreign.ApprovalProgram = c31fill(5000, 5) // larger than the maximal byte value (app_params_get)
+	foreign.ExtraProgramPages = 2
+	led.NewApp(tx.Txn.Sender, 1056, foreign)
 	led.NewApp(tx.Txn.Receiver, 1100, makeApp(0, 0, 1, 1))
 	_ = led.SetForeignBoxReads(1056, true)
 	_ = led.SetFamilyBoxAccess(1056, true)
@@ -378,6 +381,9 @@ func c31newLedger(tx *transactions.SignedTxn) c31ledger {
 	led.NewHolding(tx.Txn.Receiver, 1055, 10, false)
 	_ = led.NewBox(888, c31boxName, c31fill(64, 1), appAddr)
 	_ = led.NewBox(1056, c31boxName, c31fill(64, 2), basics.AppIndex(1056).Address())
+	// a box larger than the maximal byte value, named by the 32-byte grid value: reading it whole
+	// must fail, it must never appear on the stack
+	_ = led.NewBox(888, string(c31addr32), c31fill(5000, 4), appAddr)
 	return c31ledger{led}
 }
 
@@ -389,6 +395,8 @@ func c31newEnv(k c31key) *c31env {
 	tx.Txn.ForeignApps = []basics.AppIndex{1056, 1100, 1111}
 	tx.Txn.FirstValid = 3
 	tx.Txn.LastValid = 1000
+	tx.Txn.ApprovalProgram = c31fill(5000, 6) // larger than the maximal byte value (txn ApprovalProgram)
+	tx.Txn.ClearStateProgram = c31fill(100, 7)
 	tx.Txn.Boxes = []transactions.BoxRef{{Index: 0, Name: []byte(c31boxName)}, {Index: 0, Name: []byte("a")}, {Index: 0, Name: c31addr32},
 		{Index: 1, Name: []byte(c31boxName)}, {Index: 1, Name: []byte("a")}}
 	second := transactions.SignedTxn{}
